@@ -8,6 +8,7 @@ import (
 	"net/http/httptest"
 	"net/url"
 	"os"
+	"strconv"
 	"strings"
 	"sync"
 
@@ -165,6 +166,45 @@ func matchFinish(s *Summary) {
 	}
 	s.info("paths", len(st.paths)-1)
 	s.info("pool", len(st.hdr.Pool))
+	if n, _ := strconv.Atoi(os.Getenv("VERIF_MATCH_MANY")); n > 0 {
+		matchMany(s, n)
+	}
+}
+
+// matchMany: very many DISTINCT URLs on a router whose cache is as large as it can be (the model's path universe is small;
+// whatever the cache does with a key must hold for keys it has not been tried with): every lookup, on the miss and
+// on the repeat, selects the route of its pattern with the values of ITS path
+func matchMany(s *Summary, n int) {
+	r := newRouter(rux.CachingWithNum(65535))
+	r.GET("/u/{id}", nopHandler)
+	r.GET("/p/{a}/x/{b}", nopHandler)
+	bad := 0
+	for i := 0; i < n && bad < 3; i++ {
+		id := "k" + strconv.FormatInt(int64(i)*2654435761%1000000007, 36)
+		for pass := 0; pass < 2; pass++ {
+			path, want := "/u/"+id, map[string]string{"id": id}
+			if i%3 == 2 {
+				path, want = "/p/"+id+"/x/"+strconv.Itoa(i), map[string]string{"a": id, "b": strconv.Itoa(i)}
+			}
+			rt, ps, _ := r.Match("GET", path)
+			s.Compared++
+			wantPath := "/u/{id}"
+			if i%3 == 2 {
+				wantPath = "/p/{a}/x/{b}"
+			}
+			if rt == nil || rt.Path() != wantPath || !paramsEqual(ps, want) {
+				bad++
+				got := "no route"
+				if rt != nil {
+					got = rt.Path()
+				}
+				s.mismatch(map[string]any{"kind": "params", "aspect": "params", "what": fmt.Sprintf(
+					"GET %s (URL #%d of %d distinct URLs on a router with a 65535-entry cache, pass %d): selected %s with params %v, expected %s with %v", path, i+1, n, pass+1, got, ps, wantPath, want)}, nil)
+				break
+			}
+		}
+	}
+	s.info("many_distinct_urls", n)
 }
 
 // splitAtSegment cuts a route pattern at one of its top-level '/' (outside {..} and [..], not the first character):
